@@ -16,7 +16,7 @@ use std::io::{Read, Seek, SeekFrom};
 use vph::fgen;
 use vph::refdec;
 
-pub const RULE: &str = "(a) every fgen stream with one or two malformations from the malformed menu (illegal/reserved header and subframe codes, illegal partition orders, forced residuals, inconsistent STREAMINFO, …; all checksums valid) applied to frame 0 / the last frame of the plain stream and of every stream within 1 valid deviation; (b) for each damage-corpus file EVERY single-byte substitution (255 values × every position, metadata included) both raw and with CRC-8/CRC-16 of the affected frame recomputed, and EVERY truncation; thorough adds every 2-bit flip inside frame and subframe headers and every (truncation, substitution-in-the-last-16-bytes) pair; (c) EVERY byte string of length ≤2 (thorough ≤3) appended to each of {nothing, 'fLaC', 'fLaC'+valid STREAMINFO(last), 'fLaC'+STREAMINFO+frame sync, a valid header prefix}; each input is pushed through every decoding entry point: 3 readers (open + drain), their seekable variants + seek to {0,1,mid,last,end,end+1} + read, verify_reader, FlacStreamReader::read until error, FrameIterator, Frame::read / read_subset at every frame offset, generate_seektable, BlockList::read; oracle: returns, no panic in opt and chk, peak allocation ≤ 48 MiB + 16×len, ≤ 10^6 reads past end of data";
+pub const RULE: &str = "(a) every fgen stream with one or two malformations from the malformed menu (illegal/reserved header and subframe codes, illegal partition orders, forced residuals, inconsistent STREAMINFO, …; all checksums valid) applied to frame 0 / the last frame of the plain stream and of every stream within 1 valid deviation; (b) for each damage-corpus file EVERY single-byte substitution (255 values × every position, metadata included) both raw and with CRC-8/CRC-16 of the affected frame recomputed, EVERY truncation, and each of 4 multi-byte UTF-8 sequences written over every metadata position; thorough adds every 2-bit flip inside frame and subframe headers and every (truncation, substitution-in-the-last-16-bytes) pair; (c) EVERY byte string of length ≤2 (thorough ≤3) appended to each of {nothing, 'fLaC', 'fLaC'+valid STREAMINFO(last), 'fLaC'+STREAMINFO+frame sync, a valid header prefix}; each input is pushed through every decoding entry point: 3 readers (open + drain), their seekable variants + seek to {0,1,mid,last,end,end+1} + read, verify_reader, FlacStreamReader::read until error, FrameIterator, Frame::read / read_subset at every frame offset, generate_seektable, BlockList::read; oracle: returns, no panic in opt and chk, peak allocation ≤ 48 MiB + 16×len, ≤ 10^6 reads past end of data";
 pub const ASSUMPTIONS: &[&str] = &["'all byte strings' is cut down to the three enumerated spaces; coverage-guided raw fuzzing (sampling) is not used", "allocation bound constant covers the largest legitimate buffers (65535×8×4 B frame, byte queue, 33-bit side vector, 932067-point seek table)"];
 pub fn bounds(quick: bool) -> Value {
     json!({"malformations": if quick { "singles and pairs × ≤1 valid deviation" } else { "singles and pairs × ≤1 valid deviation (+2-deviation bases for singles)" }, "corpus": crate::corpus::damage_corpus(false).len(), "raw_strings": if quick { "≤2 bytes" } else { "≤3 bytes" }})
@@ -300,6 +300,19 @@ pub fn run(ctx: &Ctx, acc: &mut Acc) {
                     }
                     record(acc, ctx, if rep { "subst-repaired" } else { "subst-raw" }, &a, f.first_frame, json!({"file":f.desc,"pos":pos,"value":v,"repaired":rep}));
                 }
+            }
+        }
+        // multi-byte UTF-8 sequences written over every position of the metadata (text fields — vendor and comment strings,
+        // MIME type, description, catalogue number, ISRC — are validated and then sliced: a character straddling a slice
+        // point cannot be produced by any single-byte substitution, which only yields invalid UTF-8)
+        for pos in 4..f.first_frame {
+            for seq in [&[0xC3u8, 0xA9][..], &[0xE2, 0x82, 0xAC], &[0xF0, 0x9F, 0x98, 0x80], &[0x41, 0xC3, 0xA9]] {
+                if pos + seq.len() > f.first_frame || !ctx.mine() {
+                    continue;
+                }
+                let mut a = f.bytes.clone();
+                a[pos..pos + seq.len()].copy_from_slice(seq);
+                record(acc, ctx, "utf8-overwrite", &a, f.first_frame, json!({"file":f.desc,"pos":pos,"utf8":seq}));
             }
         }
         for len in 0..f.bytes.len() {
